@@ -79,6 +79,11 @@ func (ex *Exec) tr(e *SExpr, env *Env) *Val {
 	case "nil":
 		return &Val{T: "0", S: SRef("nil")}
 	case "id":
+		// a declared ghost variable is never shadowed by a program variable of the same name
+		if gs, isGhost := ex.spec.ghosts[e.Name]; isGhost && !strings.HasPrefix(e.Name, "$") {
+			ex.regSV(e.Name, gs)
+			return &Val{T: ex.get(env.state(), e.Name), S: gs}
+		}
 		if v, ok := env.vars[e.Name]; ok {
 			if v.T == "" && v.Tup == nil {
 				panic(specErr{"variable " + e.Name + " has no term"})
